@@ -9,8 +9,9 @@ res = {}
 lines = out.split('\n')
 i = 0
 while i < len(lines):
-    if lines[i].strip() in names and i + 1 < len(lines) and lines[i + 1].lstrip().startswith(': '):
+    if (lines[i].strip() in names or (lines[i].strip().startswith(mod + '.') and lines[i].strip()[len(mod) + 1:] in names)) and i + 1 < len(lines) and lines[i + 1].lstrip().startswith(': '):
         n = lines[i].strip()
+        n = n[len(mod) + 1:] if n.startswith(mod + '.') else n
         body = [lines[i + 1].lstrip()[2:]]
         j = i + 2
         while j < len(lines) and lines[j].startswith(' ') and lines[j].strip():
